@@ -111,6 +111,40 @@ for dead in (False, True):
         if dead and policy and not stolen:
             verdict(True, "dead holder with steal_dead on was not stolen from")
 
+# 4b. stealing never takes the lock of a later, live holder: the examined (dead) holder is replaced before the break starts
+t = fresh()
+a, b, c = LockDir(t, "lock"), LockDir(t, "lock"), LockDir(t, "lock")
+a.attempt_lock()
+examined = b.peek()
+
+
+class DeadThenReplaced(Probe):
+    def is_lock_holder_known_dead(self):
+        a.unlock()
+        c.attempt_lock()        # a later holder, alive
+        return True
+
+
+class CfgOn:
+    def get(self, name):
+        return True if name == "locks.steal_dead" else None
+
+
+b.get_config = lambda: CfgOn()
+real_fb2 = b.force_break
+b.force_break = lambda info: real_fb2(info.i if isinstance(info, Probe) else info)
+try:
+    b._handle_lock_contention(DeadThenReplaced(examined, True))
+    outcome = "returned (retry)"
+except (errors.LockBreakMismatch, errors.LockContention) as e:
+    outcome = type(e).__name__
+try:
+    c.confirm()
+except errors.LockBroken:
+    verdict(True, "stealing from a dead holder removed the lock of a LATER live holder (the holder found on disk was broken instead of the "
+                  "examined one); handler outcome: %s" % outcome,
+            input="A dead holds; B examines A; A gone, C (alive) locks; B steals")
+
 # 5. the rely point: a later holder takes the lock between the read and the rename (finding F4 on the unchanged tree)
 t = fresh()
 a, b, c = LockDir(t, "lock"), LockDir(t, "lock"), LockDir(t, "lock")
